@@ -17,7 +17,7 @@ def replay(d):
 
 
 def check(run):
-    run.deductive(PC.MODULES)
+    PC.deductive(run)
     c07_native.data_and_bounded(run)
     pairs, _ = PC.bounded_rows(run, "balanced-input-passes-through", _row)
     # derived balanced inputs: reversals, doubled reactions and unions of solved rows
